@@ -16,12 +16,12 @@ func init() {
 		Run:   runC07,
 		Explain: "(a) reader/writer agreement: the signers marshal envelope.Payload; every json.Unmarshal of a verified envelope's Payload.Content decodes into *envelope.Payload or a generic map; " +
 			"(b) notation.VerifyBlob returns the TargetArtifact of the payload decoded from the outcome the verifier returned, together with that outcome; VerificationOutcome.UserMetadata returns that payload's annotations; " +
-			"(c) tables: signer.algorithms == verifier.algorithms and both cover every hash core-go derives from the six key specs; proto.HashAlgorithmFromKeySpec agrees with core-go's KeySpec.SignatureAlgorithm().Hash() on the six key specs " +
+			"(c) tables: the signer's and the verifier's crypto.Hash -> digest.Algorithm relation are equal and cover every hash core-go derives from the six key specs (the relation is read off a package-level map literal that is never written, or off a function of the hash — switch, if-chain, wrapper over the map, with a bool / error / no found-answer — evaluated abstractly once per hash value; found by type / signature in whatever package declares it); proto.HashAlgorithmFromKeySpec agrees with core-go's KeySpec.SignatureAlgorithm().Hash() on the six key specs " +
 			"(both evaluated by abstract interpretation); EncodeKeySpec and DecodeKeySpec are mutually inverse on the six constants; the payload content type written by the signer is the constant the verifier accepts; " +
 			"(d) payload construction: SanitizeTargetArtifact copies exactly media type, digest, size and annotations of its argument; both signers sign Payload{SanitizeTargetArtifact(desc parameter)} " +
 			"(marshalled in the signing function or in a module helper it hands that parameter to; the bytes are followed through the helper's result into the request); " +
 			"expiry = SigningTime.Add(ExpiryDuration) only when the duration is non-zero (patched into the request, computed ahead of it from the very value stored as SigningTime, or computed / stored by a module helper that is handed these); the plugin request carries ExpiryDuration/time.Second; " +
-			"the blob digest algorithm at signing is algorithms[keySpec.SignatureAlgorithm().Hash()] with a fail-closed miss; " +
+			"the blob digest algorithm at signing is table[keySpec.SignatureAlgorithm().Hash()] with a fail-closed miss (anchored at the signer's invocation of the generator; the argument is decided per origin, so the table may be applied next to the invocation or in a module helper); " +
 			"(e) the blob descriptor generator (function literal or bound method of an object filled with the inputs; made by a builder both wrappers call, by the wrappers themselves or through a constructor) is {given media type, digest and byte count of the given reader under the requested algorithm}, " +
 			"runs the same code for SignBlob and VerifyBlob and holds the same inputs (reader, ContentMediaType and UserMetadata exactly as given). " +
 			"Values are decided per origin: through phis (single exit with a defaulted local), through module helpers (callee parameters = call arguments) and, for helpers that are handed less than the signer, at their closed list of call sites.",
@@ -335,25 +335,24 @@ func evalScalarFn(fn *ssa.Function, in AVal) []AVal {
 
 func c07Tables(c *Ctx) {
 	w := c.W
-	// signer.algorithms == verifier.algorithms
-	es, ps := w.pkgVarInit("signer", w.globalWhere("signer", isHashDigestMap))
-	ev, pv := w.pkgVarInit("verifier", w.globalWhere("verifier", isHashDigestMap))
-	var ms, mv map[string]string
-	if es != nil && ev != nil {
-		ms, _ = mapLiteral(ps, es)
-		mv, _ = mapLiteral(pv, ev)
-	}
-	eq := ms != nil && mv != nil && len(ms) == len(mv)
-	for k, v := range ms {
-		if mv[k] != v {
-			eq = false
+	// the signer's relation == the verifier's relation. The relation is read off whatever carries it (c07HashTables): a map
+	// literal, or a function of the hash evaluated abstractly per hash value; found by type / signature, not by name.
+	ms, site, whyS := c07PkgRelation(w, "signer")
+	mv, _, whyV := c07PkgRelation(w, "verifier")
+	for _, t := range c07HashTables(w).Tables {
+		c.Evals += t.Steps
+		if t.Fn != nil {
+			c.SeenFn(t.Fn.String())
 		}
 	}
-	site := "-"
-	if es != nil {
-		site = w.Pos(es.Pos())
+	eq := c07SameRelation(ms, mv)
+	tabDetail := fmt.Sprintf("signer=%v verifier=%v", ms, mv)
+	for _, y := range []string{whyS, whyV} {
+		if y != "" {
+			tabDetail += "; " + y
+		}
 	}
-	c.Check(eq && len(ms) >= 3, "tables/hash-to-digest-algorithm", "agreement: the signer's and the verifier's crypto.Hash -> digest.Algorithm tables are the same map", site, fmt.Sprintf("signer=%v verifier=%v", ms, mv))
+	c.Check(eq && len(ms) >= 3, "tables/hash-to-digest-algorithm", "agreement: the signer's and the verifier's crypto.Hash -> digest.Algorithm tables are the same map", site, tabDetail)
 	want := map[string]string{}
 	if p := w.ByPath["crypto"]; p != nil {
 		for _, n := range []string{"SHA256", "SHA384", "SHA512"} {
@@ -368,7 +367,7 @@ func c07Tables(c *Ctx) {
 			okWant = false
 		}
 	}
-	c.Check(okWant, "tables/hash-to-digest-algorithm-total", "the tables map SHA256/384/512 to the digest algorithm of the same name (total over the hashes of the six key specs)", site, fmt.Sprintf("signer=%v verifier=%v", ms, mv))
+	c.Check(okWant, "tables/hash-to-digest-algorithm-total", "the tables map SHA256/384/512 to the digest algorithm of the same name (total over the hashes of the six key specs)", site, tabDetail)
 
 	// key specs
 	specs := []keySpecIn{{"RSA-2048", 1, 2048}, {"RSA-3072", 1, 3072}, {"RSA-4096", 1, 4096}, {"EC-256", 2, 256}, {"EC-384", 2, 384}, {"EC-521", 2, 521}}
@@ -663,40 +662,66 @@ func c07Payload(c *Ctx) {
 			c.Unk(kw[0], "anchor: the store into "+kw[1]+" in the signer package", "-", "the field is never written: the requested expiry duration is not carried into the signature")
 		}
 	}
-	// blob digest algorithm at signing
-	var gd *ssa.Function
-	sAlg := "global:ngo/signer." + w.globalWhere("signer", isHashDigestMap)
-	for _, fn := range w.FuncsOfPkg("signer") {
-		for _, b := range fn.Blocks {
-			for _, in := range b.Instrs {
-				if lk, ok := in.(*ssa.Lookup); ok && desc(lk.X) == sAlg {
-					gd = fn
-					s := w.Summarize(fn, Mode{Kind: mErr})
-					c.Evals += s.States
-					c.SeenFn(fn.String())
-					// the key spec parameter is identified by its type, not by its position: the lookup must be keyed by the hash of
-					// the key spec the function was given, wherever in the parameter list it stands (none or several: undecidable here, "param:?")
-					ksParam, nKs := "param:?", 0
-					for _, p := range fn.Params {
-						if t := namedOf(p.Type()); t == "core/internal/algorithm.KeySpec" || t == "core/signature.KeySpec" {
-							ksParam = "param:" + p.Name()
-							nKs++
-						}
-					}
-					if nKs != 1 {
-						ksParam = "param:?"
-					}
-					key := "call:(core/internal/algorithm.Algorithm).Hash(call:(core/internal/algorithm.KeySpec).SignatureAlgorithm(" + ksParam + "))"
-					c.requireOnExits("payload/blob-digest-algorithm", fn, s.Exits, []Need{
-						{Name: "lookup", What: "algorithms[keySpec.SignatureAlgorithm().Hash()] found", Subs: []string{"T(ok(" + sAlg + "[" + key + "]))"}},
-						{Name: "generator", What: "descriptor generator applied to that digest algorithm", Subs: []string{"EQ(call:dyn:param:", "(" + sAlg + "[call:(core/internal/algorithm.Algorithm).Hash(call:(core/internal/algorithm.KeySpec).SignatureAlgorithm(", "#err,nil)"}},
-					})
-				}
+	// blob digest algorithm at signing.
+	//
+	// Anchored at the signer package's invocations of the descriptor generator (by type: a call of a
+	// BlobDescriptorGenerator value). The clause: the function that is given the key spec delivers a descriptor only
+	// through a successful invocation, and the algorithm handed to it is R[hash(signature algorithm(key spec))] with the key
+	// found — R being the relation of the tables (map or function, c07HashTables). The algorithm is decided per origin
+	// (c07GeneratorArgument), so the application of the table may stand in the invoking function or in a module helper it
+	// calls; the found-fact must hold whenever that origin arrives (in a helper: on the success exit that delivered it).
+	want, _, _ := c07PkgRelation(w, "signer")
+	signerPkg2 := w.Pkg("signer")
+	nGen := 0
+	for _, gc := range c07GeneratorCalls(w) {
+		fn := gc.In
+		if signerPkg2 == nil || fnPkg(fn) != signerPkg2.Pkg {
+			continue
+		}
+		nGen++
+		s := w.Summarize(fn, Mode{Kind: mErr})
+		c.Evals += s.States
+		c.SeenFn(fn.String())
+		// the key spec parameter is identified by its type, not by its position: the table must be keyed by the hash of
+		// the key spec the function was given, wherever in the parameter list it stands (none or several: undecidable here, "param:?")
+		ksParam, nKs := "param:?", 0
+		for _, p := range fn.Params {
+			if t := namedOf(p.Type()); t == "core/internal/algorithm.KeySpec" || t == "core/signature.KeySpec" {
+				ksParam = "param:" + p.Name()
+				nKs++
 			}
 		}
+		if nKs != 1 {
+			ksParam = "param:?"
+		}
+		key := "call:(core/internal/algorithm.Algorithm).Hash(call:(core/internal/algorithm.KeySpec).SignatureAlgorithm(" + ksParam + "))"
+		apps, why := c07GeneratorArgument(w, gc, want)
+		okL := why == ""
+		for _, a := range apps {
+			if nKs == 0 && a.App.In == fn && c07KeyOfObtainedKeySpec(w, a.App) {
+				// the function is not handed the key spec but asks for it itself: keyed by the hash of the key spec it obtained
+				if !a.Found {
+					okL, why = false, "the algorithm "+desc(a.App.Val)+" reaches the invocation without the test that the key was found ("+strings.Join(a.App.foundLabels(), " / ")+")"
+				}
+				continue
+			}
+			if a.Key != key {
+				okL, why = false, "the table is keyed by "+a.Key+", not by "+key
+			} else if !a.Found {
+				okL, why = false, "the algorithm "+desc(a.App.Val)+" reaches the invocation without the test that the key was found ("+strings.Join(a.App.foundLabels(), " / ")+")"
+			}
+		}
+		siteL := w.InstrPos(gc.Call)
+		if len(apps) > 0 {
+			siteL = w.InstrPos(apps[0].App.At)
+		}
+		c.Check(okL, "payload/blob-digest-algorithm/lookup", "must-check: the descriptor generator is invoked only with table[keySpec.SignatureAlgorithm().Hash()] of the key spec "+fnName(fn)+" was given, found in the table (a miss fails closed)", siteL, why)
+		c.requireOnExits("payload/blob-digest-algorithm", fn, s.Exits, []Need{
+			{Name: "generator", What: "descriptor generator applied to that digest algorithm", Subs: []string{"EQ(" + desc(gc.Call) + "#err,nil)"}},
+		})
 	}
-	if gd == nil {
-		c.Unk("payload/blob-digest-algorithm", "anchor: the signer function that looks up the digest algorithm", "-", "not found")
+	if nGen == 0 {
+		c.Unk("payload/blob-digest-algorithm", "anchor: the signer function that looks up the digest algorithm and invokes the descriptor generator", "-", "not found")
 	}
 }
 
@@ -721,26 +746,23 @@ func c07Sanitiser(w *World) *ssa.Function {
 // generator both wrappers build is the same function of the caller's options.
 func c07BlobDescriptor(c *Ctx) {
 	w := c.W
-	// every invocation of a generator passes algorithms[<hash of the signature algorithm / key spec>]
+	// every invocation of a generator passes R[<hash of the signature algorithm / key spec>], R the relation of the tables
+	// (c07GeneratorArgument: decided per origin of the argument; the table may be a map or a function)
 	n := 0
-	for _, fn := range w.Funcs {
-		for _, ci := range allCalls(fn) {
-			call, ok := ci.(*ssa.Call)
-			if !ok || call.Call.IsInvoke() || staticCallee(call) != nil {
-				continue
+	want, _, _ := c07PkgRelation(w, "signer")
+	for _, gc := range c07GeneratorCalls(w) {
+		fn, call := gc.In, gc.Call
+		n++
+		c.Evals++
+		c.SeenFn(fn.String())
+		apps, why := c07GeneratorArgument(w, gc, want)
+		for _, a := range apps {
+			if !strings.HasPrefix(a.Key, "call:(core/internal/algorithm.Algorithm).Hash(") {
+				why = "the table is keyed by " + a.Key + ", not by the hash of a signature algorithm"
 			}
-			if namedOf(call.Call.Value.Type()) != "ngo.BlobDescriptorGenerator" {
-				continue
-			}
-			n++
-			c.Evals++
-			c.SeenFn(fn.String())
-			d := desc(call.Call.Args[0])
-			ok2 := (strings.HasPrefix(d, "global:ngo/signer."+w.globalWhere("signer", isHashDigestMap)+"[") || strings.HasPrefix(d, "global:ngo/verifier."+w.globalWhere("verifier", isHashDigestMap)+"[")) &&
-				strings.Contains(d, "call:(core/internal/algorithm.Algorithm).Hash(")
-			c.Check(ok2, fmt.Sprintf("blob-descriptor/generator-call/%s", fnName(fn)), "who-may-call: a blob descriptor generator is invoked only with algorithms[hash bound to the signing key / signature algorithm] (signer and verifier derive the digest algorithm the same way)", w.InstrPos(call),
-				"the generator is invoked with "+d)
 		}
+		c.Check(why == "", fmt.Sprintf("blob-descriptor/generator-call/%s", fnName(fn)), "who-may-call: a blob descriptor generator is invoked only with algorithms[hash bound to the signing key / signature algorithm] (signer and verifier derive the digest algorithm the same way)", w.InstrPos(call),
+			"the generator is invoked with "+desc(call.Call.Args[0])+"; "+why)
 	}
 	if n < 2 {
 		c.Unk("blob-descriptor/generator-call#count", "vacuity guard: the signer and the verifier each invoke the generator", "-", fmt.Sprintf("%d invocations found", n))
